@@ -45,7 +45,7 @@ PROP = dict(
         "Mode A uses the wall clock only through the server (ID day, upload-time); no assertion depends on its value",
     ],
     units=[
-        R("rapid", "A", "./c20", "TestC20Rapid", (600, 4), (4000, 16)),
+        R("rapid", "A", "./c20", "TestC20Rapid", (600, 12), (4000, 16)),
         E("enum_trunc", "A", "./c20", "TestC20EnumTrunc", 6, 16),
         E("enum_faults", "A", "./c20", "TestC20EnumFaults", 2, 4),
         R("ids", "B", "./storage/db", "TestC20IDHistory", (400, 2), (4000, 8)),
